@@ -8,8 +8,8 @@
    n < -1;  io.BytesIO / unbuffered FileIO (kind 1) read to end of file for every negative n.
 
    A generator's behaviour is the triple (items yielded, how it ended, stream left unread).
-   The buffer size and refill expression class of RECFM_N and the header format come from
-   Gen/RecfmParams.v (read from the source on every run). *)
+   The buffer size and refill expression class of RECFM_N, the header format and the comparison of the
+   corruption check of RECFM_VB come from Gen/RecfmParams.v (read from the source on every run). *)
 From Coq Require Import ZArith NArith List Bool Arith.
 Import ListNotations.
 Require Import SR.Base.Res SR.Gen.RecfmParams.
@@ -188,35 +188,42 @@ Definition VB_bdw_iter (kind : N) (s : list N) : out N (list N) := B_loop (S (le
 (* ---- the inner loop of RECFM_VB._data_iter over one block of length L:
         offset = 0
         while offset != len(block):
-            assert offset + 4 < len(block)
+            assert offset + 4 <= len(block)          (before fix eee0fb2:  offset + 4 < len(block))
             rdw = block[offset:offset+4]; size = unpack(rdw)
             yield rdw, block[offset+4 : offset+size]
             offset += size
       [suf] is block[offset:] (carried along instead of re-slicing).  size = 0 never advances:
-      the same pair is yielded for ever (reported as one item and Hang). *)
-Fixpoint walk (fuel : nat) (L off : N) (suf : list N) : list (list N * list N) * fin :=
+      the same pair is yielded for ever (reported as one item and Hang).
+      The comparison of the assert is READ FROM THE SOURCE (Gen/RecfmParams.v vb_rdw_fits_strict) and interpreted
+      here: [strict] = true is the comparison of the tree before eee0fb2, under which a record descriptor word that
+      ends exactly at the end of the block (a record without data bytes standing last) is refused.  The [_with]
+      forms take the comparison as an argument; the reader as it is now instantiates them with the generated value. *)
+Definition rdw_fits (strict : bool) (off L : N) : bool :=
+  if strict then (off + 4 <? L)%N else (off + 4 <=? L)%N.
+
+Fixpoint walk_with (strict : bool) (fuel : nat) (L off : N) (suf : list N) : list (list N * list N) * fin :=
   match fuel with
   | O => ([], Hang)
   | S f =>
       if (off =? L)%N then ([], Done)
-      else if (off + 4 <? L)%N then
+      else if rdw_fits strict off L then
         let rdw := firstn 4 suf in
         match unpack_H2x rdw with
         | Err e => ([], Raised e)
         | Ok size =>
             if (size =? 0)%N then ([(rdw, [])], Hang)
             else let sz := N.to_nat size in
-                 let '(l, fi) := walk f L (off + size)%N (skipn sz suf) in
+                 let '(l, fi) := walk_with strict f L (off + size)%N (skipn sz suf) in
                  ((rdw, firstn (sz - 4) (skipn 4 suf)) :: l, fi)
         end
       else ([], Raised AssertionError)
   end.
 
-Definition walk_block (block : list N) : list (list N * list N) * fin :=
-  walk (S (length block)) (N.of_nat (length block)) 0%N block.
+Definition walk_block_with (strict : bool) (block : list N) : list (list N * list N) * fin :=
+  walk_with strict (S (length block)) (N.of_nat (length block)) 0%N block.
 
 (* ---- RECFM_VB._data_iter: outer loop over blocks *)
-Fixpoint VB_loop (fuel : nat) (kind : N) (s : list N) : out N (list N * list N) :=
+Fixpoint VB_loop_with (strict : bool) (fuel : nat) (kind : N) (s : list N) : out N (list N * list N) :=
   match fuel with
   | O => ([], Hang, s)
   | S f =>
@@ -231,9 +238,9 @@ Fixpoint VB_loop (fuel : nat) (kind : N) (s : list N) : out N (list N * list N) 
               match read kind (Z.of_N size - 4) s1 with
               | Err e => ([], Raised e, s1)
               | Ok (block, s2) =>
-                  let '(items, fi) := walk_block block in
+                  let '(items, fi) := walk_block_with strict block in
                   match fi with
-                  | Done => let '(l, f', r) := VB_loop f kind s2 in (items ++ l, f', r)
+                  | Done => let '(l, f', r) := VB_loop_with strict f kind s2 in (items ++ l, f', r)
                   | _ => (items, fi, s2)
                   end
               end
@@ -241,9 +248,18 @@ Fixpoint VB_loop (fuel : nat) (kind : N) (s : list N) : out N (list N * list N) 
       end
   end.
 
-Definition VB_data_iter (kind : N) (s : list N) : out N (list N * list N) := VB_loop (S (length s)) kind s.
-Definition VB_record_iter (kind : N) (s : list N) := payloads (VB_data_iter kind s).
-Definition VB_rdw_iter (kind : N) (s : list N) := with_rdw (VB_data_iter kind s).
+Definition VB_data_iter_with (strict : bool) (kind : N) (s : list N) : out N (list N * list N) :=
+  VB_loop_with strict (S (length s)) kind s.
+Definition VB_record_iter_with (strict : bool) (kind : N) (s : list N) := payloads (VB_data_iter_with strict kind s).
+Definition VB_rdw_iter_with (strict : bool) (kind : N) (s : list N) := with_rdw (VB_data_iter_with strict kind s).
+
+(* the reader as the source has it now *)
+Definition walk := walk_with vb_rdw_fits_strict.
+Definition walk_block := walk_block_with vb_rdw_fits_strict.
+Definition VB_loop := VB_loop_with vb_rdw_fits_strict.
+Definition VB_data_iter := VB_data_iter_with vb_rdw_fits_strict.
+Definition VB_record_iter (kind : N) (s : list N) := VB_record_iter_with vb_rdw_fits_strict kind s.
+Definition VB_rdw_iter (kind : N) (s : list N) := VB_rdw_iter_with vb_rdw_fits_strict kind s.
 
 (* ======================================================================================================
    Resumed reading: several iterators, one after the other, on ONE reader object (one source).
@@ -341,8 +357,8 @@ Fixpoint B_take (fuel k : nat) (kind : N) (s : list N) : out N (list N) :=
   end.
 
 (* the walk over one block, stopped after k yields; also returns how many items are still wanted.
-   A length word of 0 yields the same pair again and again: k of them. *)
-Fixpoint walk_take (fuel k : nat) (L off : N) (suf : list N) : list (list N * list N) * fin * nat :=
+   A length word of 0 yields the same pair again and again: k of them.  Same assert, same parameter. *)
+Fixpoint walk_take_with (strict : bool) (fuel k : nat) (L off : N) (suf : list N) : list (list N * list N) * fin * nat :=
   match k with
   | O => ([], More, O)
   | S k' =>
@@ -350,14 +366,14 @@ Fixpoint walk_take (fuel k : nat) (L off : N) (suf : list N) : list (list N * li
       | O => ([], Hang, k)
       | S f =>
           if (off =? L)%N then ([], Done, k)
-          else if (off + 4 <? L)%N then
+          else if rdw_fits strict off L then
             let rdw := firstn 4 suf in
             match unpack_H2x rdw with
             | Err e => ([], Raised e, k)
             | Ok size =>
                 if (size =? 0)%N then (repeat (rdw, []) k, More, O)
                 else let sz := N.to_nat size in
-                     let '(l, fi, want) := walk_take f k' L (off + size)%N (skipn sz suf) in
+                     let '(l, fi, want) := walk_take_with strict f k' L (off + size)%N (skipn sz suf) in
                      ((rdw, firstn (sz - 4) (skipn 4 suf)) :: l, fi, want)
             end
           else ([], Raised AssertionError, k)
@@ -367,7 +383,7 @@ Fixpoint walk_take (fuel k : nat) (L off : N) (suf : list N) : list (list N * li
 (* RECFM_VB._data_iter stopped after k yields.  The block being walked lives in a local variable of the
    suspended generator: when the k-th record is not the last of its block, the rest of that block is lost
    to the next iterator (the stream continues after the block). *)
-Fixpoint VB_take (fuel k : nat) (kind : N) (s : list N) : out N (list N * list N) :=
+Fixpoint VB_take_with (strict : bool) (fuel k : nat) (kind : N) (s : list N) : out N (list N * list N) :=
   match k with
   | O => ([], More, s)
   | S _ =>
@@ -385,9 +401,10 @@ Fixpoint VB_take (fuel k : nat) (kind : N) (s : list N) : out N (list N * list N
                   match read kind (Z.of_N size - 4) s1 with
                   | Err e => ([], Raised e, s1)
                   | Ok (block, s2) =>
-                      let '(items, fi, want) := walk_take (S (length block)) k (N.of_nat (length block)) 0%N block in
+                      let '(items, fi, want) :=
+                        walk_take_with strict (S (length block)) k (N.of_nat (length block)) 0%N block in
                       match fi with
-                      | Done => let '(l, f', r) := VB_take f want kind s2 in (items ++ l, f', r)
+                      | Done => let '(l, f', r) := VB_take_with strict f want kind s2 in (items ++ l, f', r)
                       | _ => (items, fi, s2)
                       end
                   end
@@ -395,6 +412,9 @@ Fixpoint VB_take (fuel k : nat) (kind : N) (s : list N) : out N (list N * list N
           end
       end
   end.
+
+Definition walk_take := walk_take_with vb_rdw_fits_strict.
+Definition VB_take := VB_take_with vb_rdw_fits_strict.
 
 (* one pass = (iterator, how many items): iterator 0 = record_iter, 1 = rdw_iter, 2 = bdw_iter;
    None = run to exhaustion, Some k = islice(it, k) *)
